@@ -297,13 +297,13 @@ def check(run):
                 "parse core, converters or validators; every write to state that outlives a call - enumerated from the "
                 "runtime entries over the receiver-aware call graph - is one of the listed transparent memos; the "
                 "per-call context is never stored on a shared object.")
-    r19a(run)
-    r19b(run)
-    r19c(run)
-    r19d(run)
-    r19e(run)
+    run.rule(r19a, run)
+    run.rule(r19b, run)
+    run.rule(r19c, run)
+    run.rule(r19d, run)
+    run.rule(r19e, run)
     # shared with C16: the registry memo is the one piece of state a failed parse may leave behind - it must hold
     # positive answers only (what a detector says about a class can change: @utype.dataclass sets __parser__ in place)
     from . import c16
     run.rules_run.append("R16d")
-    c16.r16d(run, c16.registry_class(run))
+    run.rule(c16.r16d, run, c16.registry_class(run))
